@@ -84,6 +84,7 @@ structure Host where
   hnow : Nat := 0             -- Instant "now" of the scripted task
   wake : Option Nat := none   -- the scripted task sleeps until this Instant
   t0 : Nat := 0               -- Instant at which the current software incarnation started
+  exited : Bool := false      -- the software returned during this step (the handle is taken at the end of its tick)
   deriving Repr, Inhabited
 
 inductive Ora | fail (b : Bool) | repair | delay (ns : Nat)
